@@ -51,11 +51,13 @@ func checkC03(c *Ctx) {
 	r.NotDecided = []string{"that emitted declarations compile together with arbitrary client code", "closure typing when inference leaves the function type partly unresolved (C02)"}
 	r.Assumptions = []string{"strings.Concat/slice.Map/Zip/Mapi/Skip preserve order (C13/C14)"}
 	r.Rule("C03.ab", "naming/shape closed forms and declaration/call emission templates are the documented ones", 30)
+	r.Rule("C03.c", "external functions and types enter the enclosing scope only under their package-qualified names", 5)
 	r.Rule("FOI", "every shipped package_info declaration agrees with the Go signature it describes", 60)
 	f := c.LoadFC("fc")
 	if f == nil {
 		return
 	}
 	c.checkPins(f, "C03.ab", c03Pins)
+	checkExternalNamesQualified(c, "C03.c", f)
 	checkFOI(c, "FOI")
 }
